@@ -68,8 +68,8 @@ PROPS = {
              "GetByIndex, IsNull). Non-trivial: at least 3 operations including an in-place mutation (SetByIndex, SetLength or a change of a "
              "caller's slice). Distinct: hash of the operation list.",
         state_measure="distinct vectors (type, array length, number of alias edges) over the 4 handles",
-        probes=["caller_slice_mutated", "setbyindex_past_end", "clone_of_array", "equals_on_arrays", "mutate_with_alias_edges"] + ["host_" + h for h in
-               ["int", "int32", "uint", "uint32", "int64", "float32", "float64", "bool", "string", "time", "duration", "array", "variant", "nil", "struct", "slice", "map"]],
+        probes=["caller_slice_mutated", "setbyindex_past_end", "clone_of_array", "equals_on_arrays", "mutate_with_alias_edges", "element_mutated_in_place", "nested_deeper_than_60"] + ["host_" + h for h in
+               ["int", "int32", "uint", "uint32", "int64", "float32", "float64", "bool", "string", "time", "duration", "array", "variant", "nil", "struct", "slice", "map", "goarray", "structslice", "ptr"]],
         real=["variants.Variant"],
         stub=[],
         assumptions=["value model with explicit aliasing: only clones and list setters must be independent; Assign and construction from another "
@@ -144,7 +144,7 @@ PROPS = {
         state_measure="distinct (scenario, size of the model collection, auto-variables flag, operation) tuples",
         fault_kinds=[],
         probes=["getall_mutated", "case_insensitive_hit", "first_added_wins_checked", "auto_variables_applied", "default_variable_removed",
-                "var_not_found_named", "func_not_found_named", "default_function_wins_checked", "custom_function_resolved"],
+                "var_not_found_named", "func_not_found_named", "default_function_wins_checked", "custom_function_resolved", "second_calculator_called"],
         real=["variables.VariableCollection", "functions.FunctionCollection", "ExpressionCalculator", "ExpressionParser", "MustacheTemplate", "MustacheParser"],
         stub=["recordingCollection (a VariableCollection whose FindByName finds nothing, to read the calculator's discovered names in order)"],
         assumptions=["discovery is checked only for generated inputs whose identifier roles are known to the generator",
